@@ -152,7 +152,18 @@ def _install_interceptors():
             blocked = bool(np.any(((d_ > 0) & (x_ >= ub_)) | ((d_ < 0) & (x_ <= lb_))))
         except Exception:  # noqa: BLE001
             blocked = False
-        act.ls_log.append((ev0, act.n_events, None if r is None else float(r), dn, xb, blocked))
+        try:
+            # largest feasible step along d; a value one rounding below 1 makes the search refuse its
+            # initial unit step without evaluating anything (stp > stpmax): decided by one ulp
+            with np.errstate(divide="ignore", invalid="ignore"):
+                m_ = d_ != 0
+                r_ = np.where(d_[m_] > 0, (ub_ - x_)[m_] / d_[m_], (lb_ - x_)[m_] / d_[m_])
+                r_ = r_[np.isfinite(r_)]
+            cap = float(np.min(r_)) if r_.size else float("inf")
+            near_cap = bool(1.0 - 16 * np.finfo(float).eps <= cap < 1.0)
+        except Exception:  # noqa: BLE001
+            near_cap = False
+        act.ls_log.append((ev0, act.n_events, None if r is None else float(r), dn, xb, blocked, near_cap))
         return r
 
     def update_lbfgs_matrices(*a, **k):
